@@ -132,13 +132,21 @@ class Interp:
             if isinstance(node, ast.Lambda):
                 return self.eval(node.body)
             is_gen = any(isinstance(n, (ast.Yield, ast.YieldFrom)) for n in self.walk_own(node))
+            sym_gen = is_gen and fr.contract is not None and isinstance(fr.contract.result, ListT) and fr is self.frames[0]
             if is_gen:
                 fr.yields = []
+            if sym_gen:
+                ty = fr.contract.result
+                yl = VList(ty.t, [z3.Empty(so) for s_, so in ty.comps()])
+                yl.origin = ('local',)
+                fr.locals['_yields'] = yl
             try:
                 self.exec_block(node.body)
                 ret = VNone()
             except ReturnSig as r:
                 ret = r.value
+            if sym_gen:
+                return fr.locals['_yields']
             if is_gen:
                 return self.make_gen(fr.yields)
             return ret
@@ -217,7 +225,17 @@ class Interp:
         if isinstance(s.value, ast.Constant):
             return
         if isinstance(s.value, ast.Yield):
-            self.fr.yields.append(self.eval(s.value.value) if s.value.value else VNone())
+            v = self.eval(s.value.value) if s.value.value else VNone()
+            if '_yields' in self.fr.locals:
+                # generator under contract with a list result: the yielded values are the ghost list local `_yields`
+                # (eager model of the generator: what it yields when run to completion)
+                lst = self.fr.locals['_yields']
+                c = self.fr.contract
+                if c is not None and getattr(c, 'on_yield', None) is not None:
+                    c.on_yield(self.loop_cx(), lst, v)
+                self.list_append(lst, v)
+                return
+            self.fr.yields.append(v)
             return
         self.eval(s.value)
 
@@ -438,6 +456,8 @@ class Interp:
             for n in [st] + list(self.walk_own(st)):
                 if isinstance(n, ast.Name) and isinstance(n.ctx, (ast.Store, ast.Del)):
                     names.add(n.id)
+                if isinstance(n, (ast.Yield, ast.YieldFrom)):
+                    names.add('_yields')
                 # in-place mutation of a local container: x[k] = v, del x[k], x.append(...) ...
                 if isinstance(n, ast.Subscript) and isinstance(n.ctx, (ast.Store, ast.Del)) and isinstance(n.value, ast.Name):
                     names.add(n.value.id)
@@ -1211,6 +1231,11 @@ class Interp:
         if isinstance(f, VMethod):
             return self.models.method(self, f.recv, f.name, args, kwargs)
         if isinstance(f, VClosure):
+            nc = self.world.by_name.get('nested:' + f.name)
+            if nc is not None and not (self.frames and self.frames[0].contract is nc):
+                # an inner function under contract: its free variables are read from the defining environment
+                extra = {n: f.env[n] for n in nc.params if n not in [a.arg for a in f.node.args.args] and n in f.env}
+                return self.call_by_contract(nc, list(args), dict(kwargs, **extra), node)
             return self.call_closure(f, args, kwargs)
         if isinstance(f, VFunc):
             fn = f.fn
@@ -1241,13 +1266,15 @@ class Interp:
             self.raise_py(TypeError)
         return self.models.call_other(self, f, args, kwargs)
 
-    def call_closure(self, f, args, kwargs):
+    def call_closure(self, f, args, kwargs, contract=None, frame_hook=None):
         node = f.node
         saved = self.frames
         # closures share the defining frame's locals for free variables (read-only use here)
         loc = self.bind_closure(node, args, kwargs, f)
         env = _ChainEnv(loc, f.env)
-        fr = Frame(f.name, env, f.glob, None)
+        fr = Frame(f.name, env, f.glob, contract)
+        if frame_hook:
+            frame_hook(fr)
         return self.run_frame(fr, node)
 
     def bind_closure(self, node, args, kwargs, f):
@@ -1264,7 +1291,15 @@ class Interp:
         ctx = self.ctx
         info = function_ast(c.fn)
         fnode = info['node']
-        loc = self.bind(fnode.args, c.fn, args, kwargs, c.fn.__globals__)
+        if getattr(c, 'nested', None):
+            inner = [n for n in ast.walk(fnode) if isinstance(n, ast.FunctionDef) and n.name == c.nested and n is not fnode][0]
+            pnames = [a.arg for a in inner.args.args]
+            loc = self.bind(inner.args, None, args, {k: v for k, v in kwargs.items() if k in pnames}, c.fn.__globals__)
+            for n in c.params:
+                if n not in loc and n in kwargs:
+                    loc[n] = kwargs[n]                  # free variables of the inner function
+        else:
+            loc = self.bind(fnode.args, c.fn, args, kwargs, c.fn.__globals__)
         loc = self.conform_args(c, loc)
         site = 'call:%s@%s' % (c.name.split('.')[-1], getattr(node, 'lineno', '?'))
         old_heap = dict(ctx.heap)
